@@ -13,4 +13,5 @@ for d in sorted(glob.glob("/verif/seeded/*_*")):
     needs = m.get("needs", "").replace("|", "\\|").replace("\n", " ")
     needs = needs[:160] + ("…" if len(needs) > 160 else "")
     sig = (c.get("signatures") or [""])[0].replace("|", "\\|")
-    print(f"| {name} | {pid} | {summ} *(needs: {needs})* | {c.get('outcome','?')} | `{sig}` |")
+    outcome = c.get('outcome', '?') + (" — see note in result.json" if r.get("note") else "")
+    print(f"| {name} | {pid} | {summ} *(needs: {needs})* | {outcome} | `{sig}` |")
